@@ -119,9 +119,8 @@ fn worker(args: &[String], in_process: bool) {
     let focus = arg_value(args, "--focus").unwrap_or_default();
     let mut rep = BlockReport::default();
     for index in start..start + count {
-        if !in_process {
-            rep.begin_run(index);
-        }
+        let _ = in_process;
+        rep.begin_run(index);
         let seed = derive_seed(base ^ scenario_salt(scenario), index);
         let case = prog::generate(seed, scenario);
         let res = exec_case(&case);
@@ -142,7 +141,8 @@ fn worker(args: &[String], in_process: bool) {
             for (k, n) in &o.counters {
                 rep.count(k, *n);
             }
-            let h = case.canonical_hash();
+            // under Miri the hash is the seed (serialising the case is too slow there)
+            let h = if cfg!(miri) { seed } else { case.canonical_hash() };
             let nontrivial = match focus.as_str() {
                 "C01" => o.nontrivial_c01,
                 "C02" => o.nontrivial_c02,
@@ -150,7 +150,7 @@ fn worker(args: &[String], in_process: bool) {
                 "C04" => o.nontrivial_c04,
                 _ => match scenario {
                     Scenario::General => o.nontrivial_c01 || o.nontrivial_c02,
-                    Scenario::Gc => o.nontrivial_c03,
+                    Scenario::Gc | Scenario::GcSmall => o.nontrivial_c03,
                     Scenario::Twins => o.nontrivial_c04,
                 },
             };
@@ -168,7 +168,7 @@ fn worker(args: &[String], in_process: bool) {
             }
             if nontrivial {
                 rep.nontrivial_case(h);
-                if rep.samples.len() < 2 {
+                if rep.samples.len() < 2 && !cfg!(miri) {
                     rep.sample(json!({"seed": seed, "scenario": scenario.name(), "capacity": case.capacity,
                         "program_nodes": case.program.nodes.len(),
                         "ops": case.ops.iter().map(|o| format!("{o:?}")).collect::<Vec<_>>()}));
@@ -189,6 +189,7 @@ fn scenario_salt(s: Scenario) -> u64 {
         Scenario::General => 0x1111,
         Scenario::Gc => 0x2222,
         Scenario::Twins => 0x3333,
+        Scenario::GcSmall => 0x4444,
     }
 }
 
@@ -355,6 +356,19 @@ fn replay(path: &str) -> i32 {
         .unwrap_or_else(|e| simcore::harness_error(&format!("replay: bad case: {e}")));
     let property = v["expect"]["property"].as_str().unwrap_or("").to_string();
     let kind = v["expect"]["kind"].as_str().unwrap_or("").to_string();
+    if v["miri"].as_bool() == Some(true) {
+        return match sim_pico::miri_tier::case_fails_under_miri(&case) {
+            Some(why) => {
+                println!("replay (Miri): {why}");
+                println!("VIOLATION property={property} replay={path}");
+                simcore::EXIT_VIOLATION
+            }
+            None => {
+                println!("replay: {path}: Miri completes the case without an error");
+                simcore::EXIT_OK
+            }
+        };
+    }
     let found = classify_in_child(&case);
     for (p, k, d) in &found {
         println!("replay: violation property={p} kind={k}: {d}");
@@ -375,7 +389,8 @@ struct Plan {
 }
 
 fn plan_for(property: &str, tier: &str) -> Plan {
-    let scale: u64 = if tier == "thorough" { 100 } else { 1 };
+    // quick: 5 x the base counts (about 20 s native); thorough: 300 x (time-capped per scenario)
+    let scale: u64 = if tier == "thorough" { 300 } else { 5 };
     match property {
         "C01" => Plan {
             scenarios: vec![(Scenario::General, 200_000 * scale), (Scenario::Gc, 100_000 * scale)],
@@ -433,9 +448,9 @@ fn run(args: &[String]) -> i32 {
                 property.clone(),
             ],
             total_runs: runs,
-            block: if tier == "thorough" { 20_000 } else { 4_000 },
+            block: if tier == "thorough" { 50_000 } else { 10_000 },
             workers,
-            max_wall_s: if tier == "thorough" { 3000.0 } else { 240.0 },
+            max_wall_s: if tier == "thorough" { 1500.0 } else { 120.0 },
             max_violations: 64,
             env: vec![],
         };
@@ -569,9 +584,57 @@ fn run(args: &[String]) -> i32 {
         reported += 1;
     }
 
+    // ---- Miri tier (C03 only): the undefined-behaviour clause ----
+    let mut miri_json = json!({"ran": false});
+    if property == "C03" && std::env::var("VERIF_NO_MIRI").is_err() {
+        use sim_pico::miri_tier as mt;
+        let (procs, per) = if tier == "thorough" { (16u64, 60u64) } else { (16u64, 3u64) };
+        let m = mt::run_batch(seed, procs, per);
+        println!(
+            "  miri tier: {} histories in {} processes, {} aborted by Miri, {} model violations, wall={:.1}s",
+            m.histories,
+            m.processes,
+            m.failures.len(),
+            m.violations.len(),
+            m.wall_s
+        );
+        miri_json = json!({"ran": true, "histories": m.histories, "processes": m.processes,
+            "aborted_by_miri": m.failures.len(), "wall_s": m.wall_s,
+            "flags": "-Zmiri-disable-isolation", "scenario": "gcsmall (<=24 ops, <=4 nodes)",
+            "body_executions": m.counters.get("body_executions").copied().unwrap_or(0),
+            "gcs": m.counters.get("fault.gc").copied().unwrap_or(0)});
+        if let Some((index, mseed, why)) = m.failures.first() {
+            println!("  miri aborted run index {index} seed {mseed:#x}:\n{why}");
+            let (_, case) = mt::regenerate(seed, *index);
+            match mt::case_fails_under_miri(&case) {
+                None => simcore::harness_error("Miri failure does not reproduce when the run is executed alone"),
+                Some(_) => {
+                    let original = case.ops.len();
+                    let (min, used) = mt::minimise_under_miri(case, 40);
+                    let why2 = mt::case_fails_under_miri(&min)
+                        .unwrap_or_else(|| simcore::harness_error("minimised Miri case does not reproduce"));
+                    println!("  minimised {original} -> {} ops with {used} Miri executions", min.ops.len());
+                    let dir = root.join("replays");
+                    let _ = std::fs::create_dir_all(&dir);
+                    let path = dir.join(format!("C03-sim_pico-miri-{mseed:016x}.json"));
+                    let v = json!({"engine": "sim_pico", "scenario": "gcsmall", "property": "C03", "seed": mseed,
+                        "miri": true, "expect": {"property": "C03", "kind": "miri-abort"},
+                        "detail": why2, "original_ops": original, "case": min});
+                    std::fs::write(&path, serde_json::to_string_pretty(&v).unwrap()).expect("write replay");
+                    println!("VIOLATION property=C03 replay={}", path.display());
+                    exit = simcore::EXIT_VIOLATION;
+                    reported += 1;
+                }
+            }
+        }
+    }
+
     // ---- evidence ----
     let wall = start.elapsed().as_secs_f64();
     let mut extra = serde_json::Map::new();
+    if property == "C03" {
+        extra.insert("miri_tier".into(), miri_json);
+    }
     let nontrivial_runs = total.counters.get(plan.nontrivial_counter).copied().unwrap_or(0);
     let mut faults = serde_json::Map::new();
     let mut probes = serde_json::Map::new();
@@ -690,6 +753,23 @@ fn main() {
             install_quiet_panic_hook();
             exec_json();
             0
+        }
+        "miri-case" => {
+            // one explicit case (argv, because Miri replays build-time env and has no stdin
+            // guarantees); undefined behaviour makes Miri abort the process with an error
+            install_quiet_panic_hook();
+            let case: Case = serde_json::from_str(args.get(2).map(|s| s.as_str()).unwrap_or(""))
+                .unwrap_or_else(|e| simcore::harness_error(&format!("miri-case: {e}")));
+            let res = exec_case(&case);
+            println!("{}", serde_json::to_string(&violations_of(&case, &res)).unwrap());
+            0
+        }
+        "miri-prebuild" => {
+            if sim_pico::miri_tier::prebuild() {
+                0
+            } else {
+                simcore::EXIT_HARNESS
+            }
         }
         "replay" => replay(args.get(2).map(|s| s.as_str()).unwrap_or("")),
         "selftest" => selftest(&args),
